@@ -167,7 +167,7 @@ Proof.
 Qed.
 
 Ltac expose :=
-  unfold addf, setf, setz, addz, setinc, setpfq, upd2, fC, fS, fDEC, fU, fCF, fM, fA, fTG, fPH, fXC, fLI in *;
+  unfold addf, setf, setz, addz, setinc, setpfq, upd2, fC, fS, fDEC, fU, fCF, fM, fA, fTG, fPH, fXC, fLI, fRDY in *;
   cbn [f z inc pfq Z.eqb Pos.eqb andb] in *.
 
 Ltac bcase x d :=
@@ -354,17 +354,70 @@ Qed.
 
 Lemma eject_only_if_room_l c x d y :
   step c x (LPulse d) = Some y ->
-  y = x /\ (f x fS d = EJECTING \/ f x fS d = BL) /\
-  (f x fTG d <> PF ->
-     isdev c (f x fTG d) = true /\
-     Z.of_nat (length (others d (inc x (f x fTG d)))) < cap c (f x fTG d) - f x fC (f x fTG d)).
+  y = x /\ (f x fS d = EJECTING \/ f x fS d = BL) /\ f x fRDY d = 1.
 Proof.
-  cbn [step]. unfold guard. intros H. split_ifs H; inversion H; subst y; clear H;
-    apply negb_false_iff in E; apply andb_true_iff in E as [_ E]; apply orb_true_iff in E;
-    assert (S : f x fS d = EJECTING \/ f x fS d = BL) by (destruct E as [E|E]; apply Z.eqb_eq in E; auto).
-  - apply Z.eqb_eq in E0. split; [reflexivity|]. split; [assumption|]. intros N. contradiction.
-  - apply andb_true_iff in E1 as [E1 E2]. apply Z.ltb_lt in E2.
-    split; [reflexivity|]. split; [assumption|]. intros _. split; assumption.
+  cbn [step]. unfold guard. intros H.
+  match type of H with (if ?g then _ else _) = _ => destruct g eqn:G end; [|discriminate].
+  inversion H; subst y; clear H.
+  apply andb_true_iff in G as [G R]. apply andb_true_iff in G as [_ G]. apply Z.eqb_eq in R.
+  apply orb_true_iff in G. split; [reflexivity|]. split; [|assumption].
+  destruct G as [G|G]; apply Z.eqb_eq in G; auto.
+Qed.
+
+(* the readiness flag is only ever set by an accepted balldevice_d_ejecting_ball, and that is accepted for a device
+   target only while it has a free place beyond the balls it expects from other sources *)
+Lemma ready_only_if_room_l c x d t n y :
+  step c x (LEjecting d t n) = Some y ->
+  f y fRDY d = 1 /\ f y fTG d = t /\
+  (t <> PF -> isdev c t = true /\ Z.of_nat (length (others d (inc x t))) < cap c t - f x fC t).
+Proof.
+  cbn [step]. unfold guard. intros H.
+  destruct (negb (isdev c d && ((t =? PF) || isdev c t))) eqn:E; [discriminate|].
+  apply negb_false_iff in E. apply andb_true_iff in E as [_ E].
+  destruct (t =? PF) eqn:T.
+  - inversion H; subst y; clear H. apply Z.eqb_eq in T.
+    split; [rewrite f_addz; apply f_setf_same|]. split.
+    + rewrite f_addz. rewrite f_setf_otherfield by reflexivity. apply f_setf_same.
+    + intros N. contradiction.
+  - cbn [orb] in E.
+    destruct (Z.of_nat (length (others d (inc x t))) <? cap c t - f x fC t) eqn:R; [|discriminate].
+    inversion H; subst y; clear H. apply Z.ltb_lt in R.
+    split; [apply f_setf_same|]. split.
+    + rewrite f_setf_otherfield by reflexivity. apply f_setf_same.
+    + intros _. split; assumption.
+Qed.
+
+Lemma ready_flag_only_from_ejecting_l c x l y d :
+  step c x l = Some y -> f x fRDY d <> 1 -> f y fRDY d = 1 -> exists t n, l = LEjecting d t n.
+Proof.
+  intros H N Y.
+  destruct l; try (exfalso; apply N; rewrite <- Y; clear N Y;
+    cbn [step] in H; unfold guard in H; split_ifs H; inversion H; subst y; clear H;
+    repeat first [ rewrite f_setz | rewrite f_addz | rewrite f_setinc | rewrite f_setpfq
+                 | rewrite f_addf_otherfield by reflexivity | rewrite f_setf_otherfield by reflexivity ];
+    reflexivity).
+  - (* LState *)
+    exfalso. cbn [step] in H; unfold guard in H.
+    destruct (Z.eq_dec d0 d) as [->|Nd].
+    + split_ifs H; inversion H; subst y; clear H;
+        repeat first [ rewrite f_setz in Y | rewrite f_addz in Y | rewrite f_setinc in Y | rewrite f_setpfq in Y
+                     | rewrite f_addf_otherfield in Y by reflexivity | rewrite f_setf_otherfield in Y by reflexivity ];
+        try (rewrite f_setf_same in Y; discriminate Y); try (apply N; exact Y).
+    + assert (Q : (d =? d0) = false) by (apply Z.eqb_neq; congruence).
+      split_ifs H; inversion H; subst y; clear H;
+        repeat first [ rewrite f_setz in Y | rewrite f_addz in Y | rewrite f_setinc in Y | rewrite f_setpfq in Y
+                     | rewrite f_addf_otherfield in Y by reflexivity | rewrite f_setf_otherfield in Y by reflexivity
+                     | rewrite f_setf_otherdev in Y by exact Q ];
+        apply N; exact Y.
+  - (* LEjecting *)
+    destruct (Z.eq_dec d0 d) as [->|Nd]; [eauto|]. exfalso.
+    assert (Q : (d =? d0) = false) by (apply Z.eqb_neq; congruence).
+    cbn [step] in H; unfold guard in H.
+    split_ifs H; inversion H; subst y; clear H;
+      repeat first [ rewrite f_setz in Y | rewrite f_addz in Y
+                   | rewrite f_setf_otherfield in Y by reflexivity
+                   | rewrite f_setf_otherdev in Y by exact Q ];
+      apply N; exact Y.
 Qed.
 
 Lemma chain_needs_available_l c x s t y : step c x (LChain s t) = Some y -> 1 <= f x fA s.
